@@ -458,4 +458,3 @@ func runC12(rc *RunCtx, variant string) *simkit.Violation {
 	}
 	return nil
 }
-
